@@ -567,6 +567,31 @@ func genAuthScenario(r *Rng, ver string) *AuthScenario {
 			}
 		}
 	}
+	if r.Chance(3) && !g.v3 {
+		// several auth events from a different room, some on (type, state_key) pairs the right room also fills: whatever
+		// order the provider receives them in, and whichever of them end up replaced, the set stays refused
+		g2 := NewRoomGen(r, ver)
+		g2.RoomID = "!elsewhere:hs1"
+		k := 1 + r.Intn(3)
+		for i := 0; i < k; i++ {
+			var e *Ev
+			switch r.Intn(4) {
+			case 0:
+				u := Pick(r, authUsers)
+				e = g2.Mk(spec.MRoomMember, u, sp(u), map[string]interface{}{"membership": "join"}, nil, nil, nil)
+			case 1:
+				e = g2.Mk(spec.MRoomPowerLevels, creator, sp(""), map[string]interface{}{"users": map[string]interface{}{creator: 100}}, nil, nil, nil)
+			case 2:
+				e = g2.Mk(spec.MRoomJoinRules, creator, sp(""), map[string]interface{}{"join_rule": "public"}, nil, nil, nil)
+			case 3:
+				e = g2.Mk("m.room.name", creator, sp(""), map[string]interface{}{}, nil, nil, nil)
+			}
+			if e != nil {
+				s.Auth = append(s.Auth, e)
+			}
+		}
+		s.Label += "+foreign"
+	}
 	// shuffle auth events
 	for i := len(s.Auth) - 1; i > 0; i-- {
 		j := r.Intn(i + 1)
